@@ -16,7 +16,7 @@
 
 use std::{cmp, thread};
 use std::fs::{self, canonicalize, create_dir_all, read_link, File, Metadata};
-use std::path::{Path, PathBuf};
+use std::path::{Component, Path, PathBuf};
 use std::sync::{Arc, Mutex};
 
 use crossbeam_channel as cbc;
@@ -221,7 +221,9 @@ pub fn tree_walker(
             .next_back()
             .ok_or(XcpError::InvalidSource("Failed to find source directory name."))?;
 
-        let target_base = if dest.exists() && dest.is_dir() && !config.no_target_directory {
+        // Like cp, `dir/..` is copied into the destination itself:
+        // `dest/..` is the destination's parent, not a place below it.
+        let target_base = if dest.exists() && dest.is_dir() && !config.no_target_directory && sourcedir != Component::ParentDir {
             dest.join(sourcedir)
         } else {
             dest.to_path_buf()
